@@ -19,11 +19,13 @@ var sevJSON = map[string]int{"Information": 0, "Warning": 1, "Bug": 2, "Fatal": 
 
 // palette entry -> severity rank
 type pal struct {
-	name string
-	sev  int
+	name  string
+	sev   int
+	extra int // a second problem of this severity on the same rule with the same text (-1 = none)
 }
 
-var palette = []pal{{"I", 0}, {"W", 1}, {"B", 2}, {"F", 3}, {"Y", 3}}
+// D: one rule that draws the same report twice, as a Warning and as a Bug (two rule{} blocks)
+var palette = []pal{{"I", 0, -1}, {"W", 1, -1}, {"B", 2, -1}, {"F", 3, -1}, {"Y", 3, -1}, {"D", 2, 1}}
 
 const config = `
 rule {
@@ -47,6 +49,21 @@ rule {
     severity = "bug"
   }
 }
+rule {
+  match { name = "sev_dual_.*" }
+  label "team" {
+    required = true
+    severity = "warning"
+  }
+}
+rule {
+  match { name = "sev_dual_.*" }
+  label "team" {
+    value    = "(a|b)"
+    required = true
+    severity = "bug"
+  }
+}
 `
 
 func buildFiles(ms []int) map[string]string {
@@ -62,6 +79,8 @@ func buildFiles(ms []int) map[string]string {
 			fmt.Fprintf(&b, "  - record: sev_warning_%d\n    expr: vector(1)\n", i)
 		case "B":
 			fmt.Fprintf(&b, "  - record: sev_bug_%d\n    expr: vector(1)\n", i)
+		case "D":
+			fmt.Fprintf(&b, "  - record: sev_dual_%d\n    expr: vector(1)\n", i)
 		case "F":
 			fmt.Fprintf(&b, "  - record: sev_fatal_%d\n    expr: vector(1\n", i)
 		case "Y":
@@ -104,6 +123,7 @@ func body(isCI bool) explore.Body {
 		// ci only: the branch also deletes a whole rule file whose recording rule a remaining rule still uses - a
 		// Warning (rule/dependency) that points at a file which no longer exists
 		deletesProvider := isCI && c.Free(2, "branch-deletes-a-used-provider-file") == 1
+		checkstyle := !isCI && c.Free(2, "checkstyle") == 1
 
 		dir := pintbin.Scratch("c05")
 		defer os.RemoveAll(dir)
@@ -148,6 +168,9 @@ func body(isCI bool) explore.Body {
 		if teamcity {
 			args = append(args, "--teamcity")
 		}
+		if checkstyle {
+			args = append(args, "--checkstyle", "cs.xml")
+		}
 		args = append(args, "--json", "out.json")
 		if !isCI {
 			args = append(args, "rules")
@@ -160,6 +183,9 @@ func body(isCI bool) explore.Body {
 		for _, m := range ms {
 			names = append(names, palette[m].name)
 			want = append(want, palette[m].sev)
+			if palette[m].extra >= 0 {
+				want = append(want, palette[m].extra)
+			}
 			if palette[m].sev > maxSev {
 				maxSev = palette[m].sev
 			}
@@ -237,7 +263,7 @@ func main() {
 	unb := func(string) int { return -1 }
 	explore.Main(&explore.Config{
 		Property: "C05", Level: "exploration",
-		Rule: "complete product: severity multisets of size<=3 over {info,warning,bug,fatal(promql syntax),fatal(yaml)} x --fail-on{unset,info,warning,bug,fatal} x --min-severity (lint) x --show-duplicates x --teamcity x {lint, ci on a one-commit branch, ci on a branch that also deletes a rule file another rule depends on}; each case is one run of the real pint binary; non-trivial = non-empty multiset; distinct = distinct choice vector",
+		Rule: "complete product: severity multisets of size<=3 over {info,warning,bug,fatal(promql syntax),fatal(yaml),one rule reported twice with the same text as warning and bug} x --fail-on{unset,info,warning,bug,fatal} x --min-severity (lint) x --show-duplicates x --teamcity x --checkstyle (lint) x {lint, ci on a one-commit branch, ci on a branch that also deletes a rule file another rule depends on}; each case is one run of the real pint binary; non-trivial = non-empty multiset; distinct = distinct choice vector",
 		Assumptions: []string{
 			"severity of a palette rule is fixed by construction (rule{report{severity}} blocks, PromQL syntax error, YAML error)",
 			"runs that fail for reasons other than 'problems found' are outside the property and are harness errors in this space",
